@@ -115,6 +115,29 @@ class Unit:
             return False
 
 
+def inactive_clamp(got, want, eq):
+    """got = if <Y below a threshold c> { 0 } else { Y } with Y = want and c <= 0: on an exactly non-negative quantity the
+    zero arm is taken only where Y is 0 already, so the clamp changes nothing in real arithmetic.  A threshold above 0
+    (`m2 < EPSILON`) is NOT inactive: it wipes small positive values."""
+    from terms import lit
+    if not (isinstance(got, tuple) and got[0] == "gamma"):
+        return False
+    a, pol = lit(got[1])
+    t_arm, f_arm = (got[2], got[3]) if pol else (got[3], got[2])  # arms taken when the atom is true / false
+    if a[0] not in ("<", "<="):
+        return False
+    lo, hi = a[1], a[2]  # atom: lo < hi  (or <=)
+    if is_const(hi) and not is_const(lo):
+        y, c, zero_arm, keep = lo, hi[2], t_arm, f_arm   # Y < c  -> zero arm on the true side
+    elif is_const(lo) and not is_const(hi):
+        y, c, zero_arm, keep = hi, lo[2], f_arm, t_arm   # c < Y  -> zero arm on the false side (Y <= c)
+    else:
+        return False
+    if not (is_const(zero_arm) and zero_arm[2] == 0) or c > 0:
+        return False
+    return eq(keep, want) and eq(y, keep)
+
+
 def bind(F, s, classes, nroles):
     fs = [f["name"] for f in F.struct_fields(s) if f["ty"]["s"] == "f64" and classes[s].get(f["name"]) == "STATE"]
     if len(fs) != nroles:
@@ -160,8 +183,7 @@ def check_sums(F, S, tss, classes, s, roles, inv, post_expect, out_expect, rid, 
                 post_terms[r_] = got
                 want = exp[r_]
                 # a non-negativity clamp on an exactly non-negative quantity is inactive in real arithmetic
-                got_c = [l for cs, l in leaves(got)]
-                ok = u.eq(got, want) or (len(got_c) == 2 and any(is_const(x) and x[2] == 0 for x in got_c) and any(u.eq(x, want) for x in got_c))
+                ok = u.eq(got, want) or inactive_clamp(got, want, u.eq)
                 if not ok:
                     fails.append("%s%s: `%s'` = %s, but the window functional requires %s" % (which, " (first call)" if zero else "", b[r_], show(got)[:110], show(want)[:90]))
             oe = out_expect(which, {k: sub(v, gm) for k, v in g.items()}, exp)
@@ -172,7 +194,8 @@ def check_sums(F, S, tss, classes, s, roles, inv, post_expect, out_expect, rid, 
                 for x in subterms(got):
                     if x[0] == "gamma" and (x[2] == cf(0.0) or x[3] == cf(0.0)):
                         keep = x[3] if x[2] == cf(0.0) else x[2]
-                        alts.append(sub(got, {x: keep}))
+                        if inactive_clamp(x, keep, u.eq):
+                            alts.append(sub(got, {x: keep}))
                 if not any(u.N.key(a_) == u.N.key(oe) or u.eq(a_, oe) for a_ in alts):
                     fails.append("%s%s: output %s is not %s" % (which, " (first call)" if zero else "", show(got)[:110], show(oe)[:90]))
         if best is None or len(fails) < len(best[1]):
